@@ -16,6 +16,11 @@ case = {"iw": w, "apps": [app per stream], "ops": [op ...]}
   "late": L  (optional) the last L applications are not requested at setup; op ["req"] sends the next such request
   op  = ["adv"] one pending reactor call (one _sendPrioritisedData iteration) | ["wu", k, inc] | ["iw", v] | ["mf", v]
       | ["write", k] | ["finish", k] | ["req"]     k = 0: connection window, k >= 1: the k-th stream (id 2k-1)
+      | ["drain"]   run pending reactor calls until the loop parks or nothing was sent for 12 consecutive calls (at
+                    most 300); the observation then also reports, per open stream, bytes written by the application,
+                    bytes received and whether it was finished ("~k:w/r[f]"), and the oracle requires that NOTHING
+                    SENDABLE REMAINS: no open stream with positive stream and connection window has unsent bytes, and
+                    no finished, fully delivered stream with a non-negative window is still without END_STREAM
 Requests not marked late are sent (and rendered) before the first op.  After the history the peer grants whatever window is still
 missing (per stream only where the stream window is short, on the connection only where that one is short) and the
 reactor is pumped until quiescent: every written byte must have arrived and every finished response must be ended.
@@ -318,13 +323,31 @@ def _impl(case) -> str:
             elif op[0] == "req":
                 if late:
                     request(late.pop(0))
+            elif op[0] == "drain":
+                quiet = 0
+                for _ in range(300):
+                    before = len(frames) + len(pev)
+                    if not reactor.step():
+                        break
+                    pump()
+                    if len(frames) + len(pev) == before:
+                        quiet += 1
+                        if quiet >= 12:
+                            break
+                    else:
+                        quiet = 0
             pump()
         except h2.exceptions.FlowControlError:
             # raised inside the server's sending loop (h2 refuses to exceed the window): the loop is not rescheduled
             dead = dead or "X:FlowControlError"
             frames.append("X:FlowControlError")
             pump()
-        out.append(obs())
+        if op[0] == "drain":
+            rep = ",".join(f"{k}:{written[k]}/{len(got.get(k, b''))}" + ("f" if k in finished else "")
+                           for k in sorted(win.opened) if k not in ended)
+            out.append(obs() + "~" + rep)
+        else:
+            out.append(obs())
     # afterwards: the peer grants what is still missing and the reactor is pumped until quiescent
     del frames[:]
     del pev[:]
@@ -401,7 +424,12 @@ def oracle(case, obs):
             win.op(op)
         if win.negative():
             neg_seen = True
+        st, _, report = st.partition("~")
         fr = st.partition("/")[0]
+        if op[0] == "drain" and "X:" not in st and "client-FlowControlError" not in tail:
+            pending_check = report
+        else:
+            pending_check = None
         for e in ([] if fr in ("-", "") else fr.split(",")):
             if e.startswith("X:"):
                 neg = win.negative() or win.cw < 0
@@ -421,6 +449,25 @@ def oracle(case, obs):
                 win.cw -= ln
             elif e.startswith("e"):
                 win.done.add((int(e[1:]) + 1) // 2)
+        if pending_check:
+            for item in pending_check.split(","):
+                k, _, wr = item.partition(":")
+                k = int(k)
+                fin = wr.endswith("f")
+                w_, r_ = map(int, wr.rstrip("f").split("/"))
+                if k in win.done:
+                    continue
+                others = [j for j in win.sw if j != k and j not in win.done and j in win.opened and win.sw[j] < 0]
+                why = (f" while stream(s) {[2 * j - 1 for j in others]} are held at a negative window" if others else "")
+                if w_ > r_ and win.sw[k] > 0 and win.cw > 0:
+                    return Failure(case, where + f"the reactor went quiescent with {w_ - r_} byte(s) of stream {2 * k - 1} "
+                                   f"unsent although its stream window ({win.sw[k]}) and the connection window "
+                                   f"({win.cw}) are open" + why,
+                                   "open-stream-starved" + ("-behind-negative-stream" if others else ""))
+                if fin and w_ == r_ and win.sw[k] >= 0 and win.cw >= 0:
+                    return Failure(case, where + f"the reactor went quiescent with stream {2 * k - 1} finished and fully "
+                                   "delivered but END_STREAM not sent" + why,
+                                   "end-stream-held" + ("-behind-negative-stream" if others else ""))
     parts = tail.split(" ")
     if "client-FlowControlError" in tail:
         if neg_seen:
@@ -624,9 +671,84 @@ def _gen_preamble_producer(rng):
     return c
 
 
+def _gen_negative_neighbour(rng):
+    """two or more concurrent streams; a SETTINGS_INITIAL_WINDOW_SIZE decrease leaves one of them negative with data or
+    END_STREAM still queued while another has open windows and a response of several DATA frames; the reactor is
+    drained at that intermediate point"""
+    iw = rng.choice([1000, 20000, 30000, 60000])
+    bx = iw + rng.randrange(1, iw)                  # X: more than one window
+    apps = [["static", [bx]] if rng.random() < 0.7 else ["static", [iw]]]
+    ops = [["adv"]] * rng.randrange(1, 2 + bx // 16384 + 2)       # X sends (part of) its first window
+    ny = rng.choice([1, 1, 2])
+    for _ in range(ny):
+        kind = rng.random()
+        size = rng.choice([50000, 40000, 3 * iw, iw // 2 + 1])
+        apps.append(["static", [size]] if kind < 0.6 else ["manual", [size]] if kind < 0.8
+                    else ["producer", max(1, size // 7), 7])
+    late = ny if rng.random() < 0.7 else 0
+    n = len(apps)
+    low = rng.choice([0, 1, iw // 4, iw // 2, iw - 1])
+    mid = []
+    if late:
+        mid += [["req"]] * ny
+    for k in range(2, n + 1):
+        if apps[k - 1][0] == "manual":
+            mid.append(["write", k])
+            if rng.random() < 0.5:
+                mid.append(["finish", k])
+    ops += mid + [["iw", low]]
+    if rng.random() < 0.5:
+        ops.append(["wu", 0, 65535])                # keep the connection window out of the way
+    if rng.random() < 0.4:
+        ops.append(["wu", rng.randrange(2, n + 1), rng.choice([16384, 50000])])
+    ops.append(["drain"])
+    for _ in range(rng.randrange(0, 5)):
+        r = rng.random()
+        if r < 0.3:
+            ops.append(["wu", rng.randrange(0, n + 1), rng.choice([100, 16384, 65535])])
+        elif r < 0.5:
+            ops.append(["adv"])
+        elif r < 0.6:
+            ops.append(["iw", rng.choice([low, iw, 2 * iw])])
+        else:
+            ops.append(["drain"])
+    c = {"iw": iw, "apps": apps, "ops": ops}
+    if late:
+        c["late"] = late
+    return c
+
+
+def _with_drains(rng, case):
+    """sprinkle intermediate quiescent points into any history"""
+    if rng.random() < 0.5:
+        ops = []
+        for o in case["ops"]:
+            ops.append(o)
+            if rng.random() < 0.12:
+                ops.append(["drain"])
+        if rng.random() < 0.5:
+            ops.append(["drain"])
+        case = {**case, "ops": ops}
+    return case
+
+
+def search(rng):
+    """extra cases when a tie broke (bounded: three more quick batches, not the thorough generator)"""
+    out = []
+    for _ in range(3):
+        out += gen(rng, "quick")
+    return out
+
+
 def gen(rng, tier):
+    return [_with_drains(rng, c) for c in _gen(rng, tier)]
+
+
+def _gen(rng, tier):
     cases = []
     q = tier == "quick"
+    for _ in range(150 if q else 3000):
+        cases.append(_gen_negative_neighbour(rng))
     for _ in range(250 if q else 5000):
         cases.append(_gen_preamble_producer(rng))
     for _ in range(200 if q else 5000):
@@ -678,6 +800,11 @@ def corpus():
         # a small response delivered first, then a producer that fills what is left of the connection window
         {"iw": 1 << 24, "apps": [["static", [535]], ["producer", 6500, 20]], "late": 1,
          "ops": [["adv"], ["adv"], ["req"]] + [["adv"]] * 12 + [["wu", 0, 65535]] + [["adv"]] * 4},
+        # two streams; SETTINGS leaves stream 1 negative with data queued; stream 3 has open windows and 50000 bytes:
+        # at the intermediate quiescent point stream 3 must have been sent up to its window
+        {"iw": 30000, "apps": [["static", [40000]], ["static", [50000]]], "late": 1,
+         "ops": [["adv"], ["adv"], ["req"], ["iw", 20000], ["wu", 0, 65535], ["drain"], ["wu", 3, 50000], ["drain"],
+                 ["wu", 1, 30000], ["drain"]]},
         # data written at an exhausted window while the sender is parked, then the window is reopened
         {"iw": 10, "apps": [["manual", [10, 5]]], "ops": [["write", 1], ["adv"], ["adv"], ["write", 1], ["wu", 1, 20],
                                                           ["adv"], ["adv"]]},
@@ -696,6 +823,8 @@ def to_coq(case):
             return f"SetMF ({o[1]})%Z"
         if o[0] == "write":
             return f"AppWrite {2 * o[1] - 1}%nat"
+        if o[0] == "drain":
+            return "Drain"
         if o[0] == "req":
             if not late:
                 return "AppWrite 99999%nat"      # nothing left to request: no-op
@@ -737,20 +866,24 @@ def _hist(c, o):
 
 
 def _model_view(a):
-    """the model prints frames and producer calls of one step as two groups, like the driver"""
-    return a.partition(" #")[0]
+    """the model prints frames and producer calls of one step as two groups, like the driver; the per-drain
+    written/received report is for the oracle only"""
+    import re
+    return re.sub(r"~\S*", "", a.partition(" #")[0])
 
 
 SPEC = Spec(
     pid="C29",
-    gen=gen, impl=impl, oracle=oracle, corpus=corpus, shrink=shrink,
+    gen=gen, impl=impl, oracle=oracle, corpus=corpus, shrink=shrink, search=search,
     coq_header="From C29 Require Import Model Run.",
     coq_fn="run_show",
     to_coq=to_coq,
     model_equal=lambda c, a, b: _model_view(a) == b,
     nontrivial=lambda c, o: "d" in o.partition(" #")[0],
     histogram=_hist,
-    rule="four generators: (1) static responses (1-4 streams, 1-4 chunks of 1-2000 bytes, chunks at the initial window "
+    rule="generators: (0) two or more streams, a SETTINGS decrease leaving one negative with data or END_STREAM queued "
+         "next to one with open windows, then an intermediate drain; half of all histories get `drain` ops sprinkled in "
+         "(quiescent points at which nothing sendable may remain queued); (1) static responses (1-4 streams, 1-4 chunks of 1-2000 bytes, chunks at the initial window "
          "+-2, 15% with 20-40 KB bodies that exhaust the connection window) under random schedules of 3-39 ops; (2) "
          "mixed static / manual / push-producer responses whose sizes hit the stream window or the remaining "
          "connection window exactly (+-2), with writes and finish placed in the history; (3) finish while a SETTINGS "
